@@ -472,7 +472,12 @@ Lemma ext_run_callbacks fuel codes e l : forall s, ext s (fst (run_callbacks fue
 Proof.
   induction l as [|c t IH]; intros s; cbn [run_callbacks fst]; [apply ext_refl|].
   pose proof (ext_run_cb fuel codes e c s) as X. destruct (run_cb fuel codes e c s) as [s1 r]. cbn [fst] in X.
-  destruct r; try exact X. eapply ext_trans; [exact X|apply IH].
+  assert (D : ext s (fst (let '(s2, r2) := run_callbacks fuel codes e t s1 in
+                          match r2 with ROk => (s2, r) | _ => (s2, r2) end))).
+  { pose proof (IH s1) as Y. destruct (run_callbacks fuel codes e t s1) as [s2 r2]. cbn [fst] in Y.
+    destruct r2; cbn [fst]; eapply ext_trans; eassumption. }
+  destruct r; try (destruct (is_stop_cb c && is_exit _); [exact D|exact X]).
+  eapply ext_trans; [exact X|apply IH].
 Qed.
 
 (* step = pop the minimum, then only schedule *)
